@@ -213,7 +213,8 @@ def check_C03(world, hist, pred):
         return False
 
     def check(node, kind, children):
-        if node.get("hook_failed") or node["id"] in cleanup_failed or node["status"] == "hook_error":
+        if node.get("hook_failed") or node["id"] in cleanup_failed or \
+                (node["status"] == "hook_error" and kind != "outline"):
             rec = pred.scen.get(node["id"]) if kind == "scenario" else None
             if rec and rec.get("attempts", 1) > 1 and not dead and not rec.get("hook_failed") \
                     and not rec.get("cleanup_failed") and not rec.get("step_hook_failed"):
